@@ -24,8 +24,18 @@ Print Assumptions C08_propagates.
 
 (* Membership is re-established on every run over the regenerated list: every method of
    Ipmi and its mix-ins is in the class, or has exactly the recorded shape of an operation
-   with loops / handlers (judged by the implementation oracle; see hand_shapes) ... *)
-Theorem C08_all_classified : forallb (classified api_ops) api_ops = true.
+   with loops / handlers (judged by the implementation oracle; see hand_shapes), or is DOWNGRADED
+   in this run.
+   DOWNGRADE RULE.  An operation is downgraded ("tainted") when the translator could not produce
+   its shape in this run - a step [Untranslated why], other than an unresolved attribute
+   ("no such attribute ...", which is a fact about the code and stays a broken obligation) - or
+   when it calls such an operation.  For a downgraded operation the class theorem is not claimed
+   in this run; the harness names it (ops_downgraded, with the translator's reason) and REQUIRES
+   that the fault oracle exercised it in this run without failure (otherwise VIOLATION
+   downgraded-without-oracle).  An operation whose shape is produced but is neither in the class
+   nor matches its recorded shape (a dropped check, a new handler, a changed loop) still breaks
+   this obligation. *)
+Theorem C08_all_classified : forallb (classified_or_downgraded api_ops) api_ops = true.
 Proof. exact all_classified. Qed.
 Print Assumptions C08_all_classified.
 
@@ -35,7 +45,7 @@ Proof. exact all_exclusive. Qed.
 Print Assumptions C08_exclusive.
 
 Theorem C08_classified_in : forall o, In o api_ops ->
-  simple_checked api_ops o = true \/ handled o = true.
+  simple_checked api_ops o = true \/ handled o = true \/ tainted api_ops o = true.
 Proof. exact classified_in. Qed.
 Print Assumptions C08_classified_in.
 
